@@ -326,8 +326,29 @@ def _goertzel(pending, entry, ivar, count, entry_names):
             e1, p1 = entry[s1]; e2, p2 = entry[s2]
             n2 = pending[s2]; n1 = pending[s1]
             if not (isinstance(n2, X) and isinstance(n1, X)): continue
-            if not n2.eq(X.var(e1)): continue
+            two = None
+            if not n2.eq(X.var(e1)):
+                # the recurrence unrolled by two: s2' = u0 + c s1 - s2 (one step on sample 2i), s1' = u1 + c s2' - s1 (a second step on sample 2i+1).
+                # It is the single-step recurrence over the interleaved sequence v(2i) = u0(i), v(2i+1) = u1(i) of 2*count samples.
+                two = _two_step(n1, n2, e1, e2, ivar, entry_names)
+                if two is None: continue
             z = {e1: X.const(0), e2: X.const(0)}
+            if two is not None:
+                v2_, c2_, mvar = two
+                x1, x2 = to_x(p1), to_x(p2)
+                if x1 is None or x2 is None or not x1.iszero() or not x2.iszero():
+                    why = "Goertzel recurrence does not start from zero state"
+                    return {s1: Mismatch(why), s2: Mismatch(why)}
+                th = _theta(c2_)
+                if th is None: continue
+                cnt2 = X.const(2) * count
+                mv = X.var(mvar)
+                Vsum = mk_sum(mvar, cnt2, v2_ * mk_fn("cis", [-(th * mv)]))
+                W = mk_fn("cis", [th * (cnt2 - 1)]) * Vsum
+                sin = mk_fn("sin", [th]); cos = mk_fn("cos", [th])
+                s2f = W.imag() / sin
+                s1f = W.real() + cos * s2f
+                return {s1: s1f, s2: s2f}
             try:
                 v = n1.subst(z)
                 c = n1.subst({e1: X.const(1), e2: X.const(0)}) - v
@@ -377,6 +398,26 @@ def _goertzel(pending, entry, ivar, count, entry_names):
                 if isinstance(no, X) and no.eq(n1): out[other] = out[s1]
             return out
     return None
+
+
+def _two_step(n1, n2, e1, e2, ivar, entry_names):
+    """(v(m), c, m) if (n1, n2) is two Goertzel steps per iteration on consecutive samples, else None."""
+    from fractions import Fraction
+    z = {e1: X.const(0), e2: X.const(0)}
+    try:
+        u0 = n2.subst(z)
+        c = n2.subst({e1: X.const(1), e2: X.const(0)}) - u0
+        d = n2.subst({e1: X.const(0), e2: X.const(1)}) - u0
+        if not (u0 + c * X.var(e1) + d * X.var(e2)).eq(n2) or not d.eq(X.const(-1)): return None
+        if (u0.fv() | c.fv()) & entry_names or ivar in c.fv(): return None
+        u1 = n1 - (c * n2 - X.var(e1))
+        if u1.fv() & entry_names: return None
+        # consecutive samples: the second input is the first one half an iteration later
+        if not u1.eq(u0.subst({ivar: X.var(ivar) + X.const(Fraction(1, 2))})): return None
+        m = fresh("m"); KIND[m] = "nat"
+        return u0.subst({ivar: X.var(m) * X.const(Fraction(1, 2))}), c, m
+    except Unknown:
+        return None
 
 
 def _theta(c):
